@@ -277,7 +277,10 @@ NOT_APPLICABLE = {
     "C15": "every quantified variable (directory depth, names, versions in file names, spelling of roots/targets, cwd) "
     "reaches the code only as an OS path string; pathlib interning and resolve()/exists()/rglob() realise a symbolic "
     "string before the first branch, so solver-based checking degenerates into enumeration of concrete directory "
-    "trees (a different technique). The numeric limits shared with C05 are decided there.",
+    "trees (a different technique). The numeric limits shared with C05 are decided there; parsing of ONE file name "
+    "(symbolic port-ID / version / short-name component behind a path stub) is exercised under C13 without an identity "
+    "oracle; the designation clause was hit once through C10 (defect D13, repaired). An attempt to claim C15 was made and "
+    "removed: see DESIGN.md section 9.",
 }
 
 PENDING = {"C%02d" % i: "pending: check not built yet in this session" for i in range(1, 20)}
